@@ -144,13 +144,16 @@ def make_equivariance(n, d, kind):
             b = np.array([float(m.get(f"b{j}", 0.3)) for j in range(d)])
             perm = list(range(d))
             # the property quantifies over scalings in [1e-6, 1e6]: also try the ends of that range
-            for sc in (1e-6, 1e-4, 1e4, 1e6):
-                aa = np.full(d, sc)
+            scalings = [np.full(d, sc) for sc in (1e-6, 1e-4, 1e4, 1e6)]
+            if d > 1:
+                scalings += [np.array([1e-3, 1e3][:d]), np.array([1e4, 1.0][:d])]  # per-coordinate (anisotropic) scalings
+            for aa in scalings:
+                sc = aa.tolist()
                 p1, q1, r1 = fit_mvstud(x)
                 p2, q2, r2 = fit_mvstud(x * aa)
                 if not (np.allclose(p2, aa * p1, rtol=1e-6, atol=0) and np.allclose(q2, np.outer(aa, aa) * q1, rtol=1e-6, atol=0)):
                     return {"reproduced": True, "signature": f"fit_mvstud:not-equivariant:{kind}", "payload": {"scale": sc},
-                            "what": f"fit_mvstud of 200 points scaled by {sc}: scale matrix {q2.tolist()} is not {sc}^2 times the unscaled one {q1.tolist()}"}
+                            "what": f"fit_mvstud of 200 points scaled per coordinate by {sc}: scale matrix {q2.tolist()} is not diag(a) Sigma diag(a) of the unscaled one {q1.tolist()}"}
             y = x * a + b
         else:
             a, b, perm = np.ones(d), np.zeros(d), [1, 0]
